@@ -242,6 +242,7 @@ Proof.
   destruct (nth_error E d) as [md|]; [|nf_simple].
   fold (st_init d md data).
   apply nf_bind; [apply scan_loop_terminates; cbn; lia|]. intros st Hs.
+  destruct (max_members <? Mem.zlen (st_members st)); [nf_simple|].
   apply nf_bind; [apply alloc_slots_nf|]. intros slots _.
   apply parse_members_nf.
   pose proof (scan_loop_members_short md _ _ _ (length data) Hs ltac:(cbn; lia) ltac:(constructor)) as HF.
